@@ -204,6 +204,8 @@ class SE:
             if name in ('value', 'name'): return cont(st, ('opaque', 'enum.' + name))
             raise Unsupported('attribute %s of enum' % name)
         if k == 'module':
+            if v[1] in ('sdn', 'spydrnet') and name in ('IN', 'OUT', 'INOUT', 'UNDEFINED'):     # spydrnet/__init__.py: IN = Port.Direction.IN, ...
+                return cont(st, ('enum', 'Direction.' + name))
             return cont(st, ('module', v[1] + '.' + name))
         if k == 'obj' and hasattr(self.spec, 'obj_attr'):
             return self.spec.obj_attr(self, st, v, name, cont)
@@ -433,6 +435,16 @@ class SE:
             if b[0] == 'constset':
                 if a[0] == 'key':
                     return fin(st, Or([a[1] == self.spec.key_const(self, x[1]) for x in b[1]]))
+            if b[0] == 'tuple':
+                # x in (a, b, ...): some item equals x (== of the items, left to right)
+                items = list(b[1])
+                def go(s, idx, acc):
+                    if idx == len(items): return fin(s, Or(acc) if acc else BoolVal(False))
+                    it = items[idx]
+                    if it[0] == 'enum' and a[0] == 'ref': it = R(self.as_ref(s, it))
+                    a_ = R(self.as_ref(s, a)) if a[0] == 'enum' and it[0] == 'ref' else a
+                    self.compare(s, ast.Eq(), a_, it, lambda s2, v: go(s2, idx + 1, acc + [self.truth(s2, v)]))
+                return go(st, 0, [])
             raise Unsupported('in on %s,%s' % (a[0], b[0]))
         if isinstance(op, (ast.Lt, ast.LtE, ast.Gt, ast.GtE)) and a[0] == 'int' and b[0] == 'int':
             t = {ast.Lt: a[1] < b[1], ast.LtE: a[1] <= b[1], ast.Gt: a[1] > b[1], ast.GtE: a[1] >= b[1]}[type(op)]
